@@ -1,7 +1,7 @@
 (* Props/C09.v — Mandatory structure is enforced and the error names the culprit.
    Property theorems only. *)
 
-From SwiftMT Require Import Base.Bytes Engine.Layout Engine.Tokens Engine.Facts Engine.Instance Engine.Extract Engine.Factor Engine.FactorInstance Engine.Regex Engine.Abs Engine.AbsSound Engine.Total Engine.AbsInstance Engine.AbsResult gen.Specs Engine.AbsBytes.
+From SwiftMT Require Import Base.Bytes Engine.Layout Engine.Tokens Engine.Facts Engine.Instance Engine.Extract Engine.Factor Engine.FactorInstance Engine.Regex Engine.Abs Engine.AbsSound Engine.Total Engine.AbsInstance Engine.AbsCommon Engine.AbsResultC09 gen.Specs Engine.AbsBytesC09.
 
 Lemma layout_dropfree : forall T L, In (T, L) all_layouts -> dropfree L = true.
 Proof.
